@@ -140,6 +140,7 @@ class Ctx:
     """conversion context: atom naming, rewrite rules, premises"""
     def __init__(self, names=None):
         self.rules = {}       # atom key -> Poly for key^2
+        self.rules3 = {}      # atom key -> Poly for key^3 (cube roots)
         self.lin = {}         # atom key -> Poly replacing key itself (substitution)
         self.memo = {}
         self.names = names or {}
@@ -160,7 +161,7 @@ class Ctx:
 
     def reduce(self, p):
         """apply rules atom^2 -> poly and atom -> poly until fixpoint"""
-        if not self.rules and not self.lin:
+        if not self.rules and not self.lin and not self.rules3:
             return p
         changed = True
         guard = 0
@@ -173,7 +174,7 @@ class Ctx:
             for m, c in p.items():
                 hit = None
                 for k, e in m:
-                    if k in self.lin or (e >= 2 and k in self.rules):
+                    if k in self.lin or (e >= 2 and k in self.rules) or (e >= 3 and k in self.rules3):
                         hit = (k, e)
                         break
                 if hit is None:
@@ -186,6 +187,10 @@ class Ctx:
                 rest = tuple((kk, ee) for kk, ee in m if kk != k)
                 if k in self.lin:
                     rep = ppow(self.lin[k], e)
+                elif k in self.rules3 and k not in self.rules:
+                    rep = ppow(self.rules3[k], e // 3)
+                    if e % 3:
+                        rep = pmul(rep, ppow(patom(k), e % 3))
                 else:
                     rep = ppow(self.rules[k], e // 2)
                     if e % 2:
